@@ -366,15 +366,15 @@ pub fn check_model(c: &ModelCase) -> Result<ModelReport, Fail> {
                 );
             }
         };
-        let bytes = match write_model("m2-write", &conv)? {
-            Ok(b) => b,
-            Err(e) => {
-                return fail2(
-                    format!("m2-converted-unwritable:{}", err_kind(&e)),
-                    format!("convert({pair}) produced a model the writer rejects: {e}"),
-                );
-            }
-        };
+        // the converted model is itself a model the library hands to its writer: full round trip
+        // first (its structural judges name causes), then the comparison with the source
+        if let Outcome::Rejected(k) = model_roundtrip("converted:", &conv, tgt.num())? {
+            return fail2(
+                format!("m2-converted-unwritable:{k}"),
+                format!("convert({pair}) produced a model the writer rejects"),
+            );
+        }
+        let bytes = write_model("m2-write", &conv)?.expect("second write of an accepted model");
         let parsed = match guard("m2-parse", || parse_m2(&mut Cursor::new(&bytes)))? {
             Ok(p) => p.model().clone(),
             Err(e) => {
@@ -400,8 +400,6 @@ pub fn check_model(c: &ModelCase) -> Result<ModelReport, Fail> {
                 ),
             );
         }
-        // the converted model is itself a model the writer accepted
-        model_roundtrip("converted:", &conv, tgt.num())?;
     }
     Ok(ModelReport { rejected: None })
 }
